@@ -101,7 +101,8 @@ static void flat(const dtype_t &d0, std::vector<std::string> &out) {
     const occa::dtypeNameMap_t &types = d.struct_ ? d.struct_->fieldTypes : d.union_->fieldTypes;
     for (size_t i = 0; i < names.size(); ++i) flat(types.find(names[i])->second, out);
   } else if (d.tuple_) {
-    for (int i = 0; i < d.tuple_->size; ++i) flat(d.tuple_->dtype, out);
+    const int entries = (d.tuple_->size < 0) ? 1 : d.tuple_->size;     // unknown extent: any number of entries
+    for (int i = 0; i < entries; ++i) flat(d.tuple_->dtype, out);
   } else {
     out.push_back(desc(d, false));
   }
